@@ -470,8 +470,12 @@ func (s *Subscription) recreate_monitoredItems(ctx context.Context) error {
 	for _, mi := range s.items {
 		itemsByTimestamps[mi.ts] = append(itemsByTimestamps[mi.ts], mi.req)
 	}
-	s.items = make(map[uint32]*monitoredItem, len(s.items))
 	s.itemsMu.Unlock()
+
+	// keep the previous items until all of them have been created
+	// so that they are not lost if the subscription needs to be
+	// recreated again, e.g. since the connection was lost.
+	newItems := make(map[uint32]*monitoredItem)
 
 	for ts, items := range itemsByTimestamps {
 		req := &ua.CreateMonitoredItemsRequest{
@@ -498,16 +502,18 @@ func (s *Subscription) recreate_monitoredItems(ctx context.Context) error {
 			}
 		}
 
-		s.itemsMu.Lock()
 		for i, item := range items {
-			s.items[res.Results[i].MonitoredItemID] = &monitoredItem{
+			newItems[res.Results[i].MonitoredItemID] = &monitoredItem{
 				req: item,
 				res: res.Results[i],
 				ts:  ts,
 			}
 		}
-		s.itemsMu.Unlock()
 	}
+
+	s.itemsMu.Lock()
+	s.items = newItems
+	s.itemsMu.Unlock()
 	dlog.Printf("subscription successfully recreated")
 
 	return nil
